@@ -652,6 +652,11 @@ func (g *SQLGen) Agg7(table string, join string) *proto.NStmt {
 	}
 	var aggs []proto.NItem
 	na := r.Range(1, 3)
+	if !padded && r.Chance(1, 25) {
+		// a select list of 60-90 entries: the aggregates beyond the 64th are
+		// aggregates like the first
+		na = r.Range(60, 90)
+	}
 	for i := 0; i < na; i++ {
 		switch r.Intn(5) {
 		case 0, 1:
